@@ -25,7 +25,9 @@ def stage(ctx):
     disc = ctx.behaviours("net", "Gen_Topology", "Gen_Topology.cfg",
                           constants={"MaxOps": wl, "Depth": wl, "OnlyDiscover": "TRUE", "MaxInject": 0},
                           simulate="num=%d" % ctx.pick(700, 6000), depth=wl + 2, seed=ctx.seed, timeout=1500)
-    allb = walks + disc
+    # every discover-driven run of 6 events in which two nodes compete for the single slots of a third
+    lim = ctx.behaviours("net", "Gen_Topology", "Gen_TopologyLimits.cfg", timeout=900)
+    allb = walks + disc + lim
     inp = ctx.path("in", "topology.ndjson")
     with open(inp, "w") as fh:
         for b in allb:
